@@ -254,6 +254,15 @@ func c09GenSet(r *Rng, id int) c09Set {
 		s.Files[name] = fm.String() + b.String()
 		s.Pages = append(s.Pages, name)
 	}
+	// two directories whose pages name the same layout, each with a layout of that name beside its pages: what the name
+	// means depends on the directory of the page that says it
+	if layout {
+		s.Files["blog/shell.vuego"] = `<div class="blog-shell">{{ site }}<main v-html="content"></main></div>`
+		s.Files["docs/shell.vuego"] = `<section class="docs-shell">{{ theme }}<main v-html="content"></main></section>`
+		s.Files["blog/post.vuego"] = "---\nlayout: shell\ntitle: Post\n---\n<h1>{{ title }}</h1><p>{{ user.name }}</p>"
+		s.Files["docs/page.vuego"] = "---\nlayout: shell\ntitle: Doc\n---\n<h1>{{ title }}</h1><p>{{ counter }}</p>"
+		s.Pages = append(s.Pages, "blog/post.vuego", "docs/page.vuego")
+	}
 	s.Frags = []string{"comp/card.vuego", "comp/item.vuego"}
 	return s
 }
